@@ -764,6 +764,16 @@ class Analysis(object):
                         fi = j
                 fr = frames[fi] if fi < len(frames) else None
                 match = fr is not None and self._answers(framing, q, fr)
+                if match and q['respond'] == 'one' and not q['execs']:
+                    # a request that was never executed (lost by the framer) followed by executed
+                    # ones: when every remaining frame is needed to answer an executed request,
+                    # the frame at hand answers one of those, not the lost request (whose
+                    # response is then reported missing) - else a lost request "steals" the
+                    # answer of its successor and the successor looks wrongly answered
+                    rest = [q2 for q2 in lst[q['i'] + 1:] if q2['respond'] == 'one' and q2['execs']
+                            and not q2.get('after_drop')]
+                    if rest and len(frames) - fi <= len(rest):
+                        match = False
                 if q['respond'] == 'none':
                     if match and not self._could_answer_later(framing, lst, q, fr):
                         self.add('response-unexpected', 'response sent for a %s request (unit %d)'
